@@ -254,3 +254,11 @@ claim("C28", "symbolic reading of the amplitude models over three abstract modes
       "classic and the JAX Matern amplitudes are the same function scale*sqrt(V)*(1+(k/cutoff)^2)^(slope/4). The classic "
       "non-parametric amplitude, product spectra (slice/average fluctuation formulas) and the numerical agreement of whole fields are "
       "not decided.", TRUST + " sympy 1.14 (offline wheelhouse) as algebraic normaliser.", "DESIGN.md section 9.8")
+
+claim("C05", "def-use / dominance rules on the optimiser's driver and pairing rules on its placeholder bookkeeping",
+      "Decides only the structural clauses: optimise_operator rewrites a private deep copy, compares the rewritten operator with the "
+      "untouched original at an input drawn on the original's domain through an assertion function and returns the copy; every "
+      "FieldAdapter placeholder is created on the target of the operator it replaces, stored as [operator, placeholder], and every "
+      "store of such pairs is bound back with partial_insert(placeholder.adjoint(operator)). That the rewritten graph (a run-time "
+      "rewrite keyed on object identity, with in-place domain repair) has the same value and Jacobian for every tree is not decided.",
+      TRUST, "DESIGN.md section 9.11")
